@@ -19,13 +19,21 @@ Oracle  : r = t.apply(shape) is a new object of the same class; observe(r) equal
           of the result leaves observe(shape) unchanged.  A point outside the piecewise-affine domain
           (decided by the model, margin 1e-9) must give TriangleContainmentError and leave everything intact.
 
+Routes  : besides t.apply(shape[, batch_size]) every other public route of the anchored files that transforms a
+          shape is a letter with the same oracle plus exact agreement with t.apply(shape) of an untouched twin:
+            inplace    t.apply_inplace(c) on c = shape.copy() (deprecated public spelling of _apply_inplace)
+            with_dims  shape.with_dims(dims), the shape-side convenience for WithDims(dims).apply(shape)
+            manager    t.apply(shape.landmarks): the landmark manager is itself Transformable
+          (TexturedTriMesh.tcoords_pixel_scaled applies a transform to the texture coordinates, not to the shape.)
+
 Second machine (roots ("session", transform letter, dims, argument set)) - refused calls on ONE live transform:
 State   : one live transform t and live argument shapes A, B (valid), W (other dimensionality), and for the
           piecewise-affine letters O (a point outside the domain), LO (a landmark outside); the model state
           is the last call made on t (what a hidden memo could remember).  No observation ever calls t.
 Ops     : ("v", arg, batch) a valid t.apply(arg); ("r", kind, arg, batch) a call the unchanged tree refuses:
           kind out / lm-out (TriangleContainmentError), wrong-dims (ValueError documented for thin plate
-          splines, any exception elsewhere), bad-batch (batch_size=0).  Depth 2 = every ordered pair.
+          splines, any exception elsewhere), bad-batch (batch_size=0), inplace-array (apply_inplace of a bare
+          array, documented ValueError).  Depth 2 = every ordered pair.
 Oracle  : refused call: (a) raises (documented type where there is one); (b) observe of every argument and the
           probe-free observation of t are what they were; (c) the immediate retry is refused in the same way
           (same type, same out-of-domain mask); (d) every valid call, whatever came before on this very object,
@@ -249,12 +257,12 @@ ARGSETS = [
     ("ColouredTriMesh", "LabelledPointUndirectedGraph"),
     ("PointUndirectedGraph", "PointDirectedGraph"),
 ]
-REFUSAL_KINDS = ("out", "lm-out", "wrong-dims", "bad-batch")
+REFUSAL_KINDS = ("out", "lm-out", "wrong-dims", "bad-batch", "inplace-array")
 
 
-def call(t, x, **kw):
+def call(t, x, inplace=False, **kw):
     try:
-        return t.apply(x, **kw), None
+        return (t.apply_inplace(x) if inplace else t.apply(x, **kw)), None
     except Exception as e:  # noqa - refusals of every kind are compared with the model by the caller
         return None, e
 
@@ -278,11 +286,15 @@ def substitute(obs, images, path="shape"):
     e = collections.OrderedDict(obs)
     e["points"] = images[path]
     if "landmarks" in e:
-        lm = collections.OrderedDict(e["landmarks"])
-        lm["n_dims"] = int(images[path].shape[1])
-        lm["values"] = [substitute(v, images, path + ".landmarks[%s]" % g) for g, v in zip(lm["groups"], lm["values"])]
-        e["landmarks"] = lm
+        e["landmarks"] = substitute_manager(e["landmarks"], images, path)
     return e
+
+
+def substitute_manager(lm_obs, images, path="shape"):
+    lm = collections.OrderedDict(lm_obs)
+    lm["values"] = [substitute(v, images, path + ".landmarks[%s]" % g) for g, v in zip(lm["groups"], lm["values"])]
+    lm["n_dims"] = int(lm["values"][0]["points"].shape[1]) if lm["values"] else lm_obs["n_dims"]
+    return lm
 
 
 class C02(Check):
@@ -352,13 +364,21 @@ class C02(Check):
             if not name.startswith("WithDims"):  # WithDims is not dimension specific: nothing to refuse
                 out.append(("r", "wrong-dims", "W", 0))
             out.append(("r", "bad-batch", "A", 0))
+            out.append(("r", "inplace-array", "A", 0))  # apply_inplace of a bare array: documented ValueError
             if is_pwa_letter(name):
                 out += [("r", k, a, b) for b in (0, 2) for k, a in (("out", "O"), ("lm-out", "LO"))]
             return out
         if level >= (1 if self.tier == "quick" else 2):
             return []
         d = st["shape"].n_dims
-        return [spec + (b,) for b in (0, 2) for spec in transform_letters(d)]
+        out = [spec + (b,) for b in (0, 2) for spec in transform_letters(d)]
+        # the other public routes (all of them from the enumerated inputs; on results only the shape-side one)
+        out += [spec + ("with_dims",) for spec in transform_letters(d) if spec[0].startswith("WithDims")]
+        if level == 0:
+            out += [spec + ("inplace",) for spec in transform_letters(d)]
+            if st["shape"].has_landmarks:
+                out += [spec + ("manager",) for spec in transform_letters(d)]
+        return out
 
     # ------------------------------------------------------------------ session step
     def apply_session(self, st, op, verify):
@@ -372,6 +392,8 @@ class C02(Check):
             kind, aid = op[1], op[2]
             kw = {"batch_size": 0 if kind == "bad-batch" else (op[3] or None)}
         x = st["args"][aid]
+        if kind == "inplace-array":
+            x, kw = x.points, {"inplace": True}
         before = st["last"]
         st["last"] = op
         if not verify:
@@ -416,7 +438,7 @@ class C02(Check):
         r1, e1 = call(t, x, **kw)
         r2, e2 = call(t, x, **kw)
         self.note("session:refusal-%s" % seq)
-        documented = TriangleContainmentError if kind in ("out", "lm-out") else ValueError if "TPS" in name or name == "ThinPlateSplines" else Exception
+        documented = TriangleContainmentError if kind in ("out", "lm-out") else ValueError if ("TPS" in name or name == "ThinPlateSplines" or kind == "inplace-array") else Exception
         if e1 is None:
             fails.append(Failure(name, "refused-call-accepted", "%s: returned %s" % (ctx, type(r1).__name__)))
         elif not isinstance(e1, documented):
@@ -439,24 +461,43 @@ class C02(Check):
 
         if st["machine"] == "session":
             return self.apply_session(st, op, verify)
-        spec, batch = tuple(op[:-1]), (op[-1] or None)
+        spec = tuple(op[:-1])
+        route, batch = (op[-1], None) if isinstance(op[-1], str) else ("apply", op[-1] or None)
         name = spec[0]
         shape = st["shape"]
         t = make_transform(spec, self.seed)
+
+        def by_route():
+            if route == "apply":
+                return t.apply(shape, batch_size=batch)
+            if route == "inplace":
+                c = shape.copy()
+                t.apply_inplace(c)
+                return c
+            if route == "with_dims":
+                return shape.with_dims(t.dims)
+            if route == "manager":
+                return t.apply(shape.landmarks)
+            raise HarnessError("unknown route %r" % (route,))
+
         if not verify:
             try:
-                st["shape"] = t.apply(shape, batch_size=batch)
+                r = by_route()
+                if route != "manager":
+                    st["shape"] = r
             except TriangleContainmentError:
                 pass
             return []
 
         fails = []
         cls = type(shape).__name__
-        ctx = "%s on %s %dD %s" % (name, cls, shape.n_dims, st["variant"])
+        ctx = "%s%s on %s %dD %s" % (name, "" if route == "apply" else " by route " + route, cls, shape.n_dims, st["variant"])
         twin = make_transform(spec, self.seed)  # same construction: what the transform looks like untouched
         obs_t0 = obs_transform(twin)
         obs_in = observe(shape)
         arrays = point_arrays(shape)
+        if route == "manager":
+            arrays = arrays[1:]  # the shape's own coordinates are not involved
         saved = [(p, a.copy()) for p, a in arrays]
 
         # ---- model: where must every coordinate array go, and may the map refuse?
@@ -474,7 +515,7 @@ class C02(Check):
         # ---- the call under test, on a pristine transform
         raised = None
         try:
-            r = t.apply(shape, batch_size=batch)
+            r = by_route()
         except TriangleContainmentError as e:
             raised, r = e, None
 
@@ -488,7 +529,8 @@ class C02(Check):
             return not (d1 or d2)
 
         intact("after apply(shape)")
-        self.note("batch:%s" % (batch or "none"))
+        if route == "apply":
+            self.note("batch:%s" % (batch or "none"))
         self.note("variant:%s" % st["variant"])
 
         if status == "outside" or (status == "border" and raised is not None):
@@ -504,10 +546,11 @@ class C02(Check):
             self.note("%s:border" % name)
 
         # ---- a new object of the same class
-        if type(r) is not type(shape):
+        receiver = shape.landmarks if route == "manager" else shape
+        if type(r) is not type(receiver):
             fails.append(Failure(name, "result-class", "%s: got %s" % (ctx, type(r).__name__)))
             return fails
-        if r is shape:
+        if r is receiver:
             fails.append(Failure(name, "result-is-input", ctx))
             return fails
 
@@ -535,14 +578,30 @@ class C02(Check):
 
         # ---- moved as one, everything else carried over: exact comparison of complete observations
         obs_r = observe(r)
-        expected = substitute(obs_in, images)
+        expected = substitute_manager(obs_in["landmarks"], images) if route == "manager" else substitute(obs_in, images)
         d = obs_diff(expected, obs_r)
         if d:
-            clause = "points" if d.startswith(".points") else "landmarks" if d.startswith(".landmarks") else "structure"
+            clause = "points" if d.startswith(".points") else "landmarks" if (d.startswith(".landmarks") or route == "manager") else "structure"
             fails.append(Failure(name, clause, "%s: result differs from (input structure + transformed coordinate arrays) at %s" % (ctx, d)))
-        n_groups = len(arrays) - 1
+        n_groups = len(point_arrays(shape)) - 1
         self.note("groups:%d" % n_groups)
         self.note("dims:%d->%d" % (shape.n_dims, r.n_dims))
+        if route != "apply":
+            # route agreement: exactly what the general call gives on an identically built transform
+            try:
+                general = twin.apply(shape)
+            except TriangleContainmentError:
+                # only the manager route can get here: the shape's own point is outside, its landmarks are not
+                if route != "manager":
+                    raise
+                general = None
+                self.note("route:manager:general-call-refused")
+            d = general is not None and obs_diff(observe(general.landmarks if route == "manager" else general), obs_r)
+            if d:
+                fails.append(Failure(name, "route-disagrees-with-apply", "%s: differs from Transform.apply(shape) at %s" % (ctx, d)))
+            self.note("route:%s:%s" % (route, "with-landmarks" if n_groups else "no-landmarks"))
+            if route == "with_dims" and n_groups and r.n_dims != shape.n_dims:
+                self.note("route:with_dims:landmarks-change-dims")
 
         # ---- ... and those numbers are the map (independent model)
         for p, (y, cond) in ref.items():
@@ -577,7 +636,7 @@ class C02(Check):
                 fails.append(Failure(name, "result-shares-buffer-with-input", "%s: writing into the result's arrays changed the input at %s" % (ctx, d3)))
             elif obs_diff(obs_r, observe(r)) is not None:
                 raise HarnessError("write-through test did not restore the result")
-        if not fails:
+        if not fails and route != "manager":
             st["shape"] = r
         return fails
 
@@ -592,6 +651,9 @@ class C02(Check):
             if not notes.get("%s:raised-outside" % n):
                 out.append("%s never refused a point outside its domain" % n)
         for n in ["groups:0", "groups:1", "groups:2", "dims:3->2", "dims:3->1", "dims:2->2", "dims:3->3", "batch:2", "batch:none"] + ["variant:%s" % v for v in VARIANTS]:
+            if not notes.get(n):
+                out.append("outcome %s never produced" % n)
+        for n in ("route:inplace:with-landmarks", "route:inplace:no-landmarks", "route:manager:with-landmarks", "route:with_dims:with-landmarks", "route:with_dims:no-landmarks", "route:with_dims:landmarks-change-dims"):
             if not notes.get(n):
                 out.append("outcome %s never produced" % n)
         for kind in REFUSAL_KINDS:
@@ -621,6 +683,7 @@ class C02(Check):
             "transform_letters_2d": len(transform_letters(2)),
             "transform_letters_3d": len(transform_letters(3)),
             "batch_sizes": ["none", 2],
+            "routes": ["apply", "apply+batch_size", "inplace", "with_dims", "manager"],
             "session_roots": len(self.session_roots()),
             "refusal_kinds": list(REFUSAL_KINDS),
             "session_argument_sets": len(ARGSETS),
@@ -635,7 +698,8 @@ class C02(Check):
             "shapes have 5 points, landmark groups 5 points, at most 2 groups and one level of nesting",
             "1-D results (WithDims with a single number) are not transformed again",
             "2-D shape letters are rescaled into the piecewise-affine source domain; out-of-domain behaviour is explored by the out / lm-out variants and at depth 2",
-            "sessions: sequences of at most 2 calls on one transform object (a refused call counts with its immediate retry); refusal kinds out-of-domain point / landmark, wrong dimensionality, batch_size=0; WithDims letters have no wrong-dimensionality refusal",
+            "routes: private hooks (_apply, _apply_inplace, _transform, _transform_inplace) are reached through the public ones only; the inplace and manager routes are taken from the enumerated inputs (level 0) only; TexturedTriMesh.tcoords_pixel_scaled (a transform applied to texture coordinates) is not a shape transformation",
+            "sessions: sequences of at most 2 calls on one transform object (a refused call counts with its immediate retry); refusal kinds out-of-domain point / landmark, wrong dimensionality, batch_size=0, apply_inplace of a bare array; WithDims letters have no wrong-dimensionality refusal",
             "the transform's 'before' observation is taken on an identically constructed twin so that the call under test runs on a pristine transform",
         ]
 
